@@ -534,7 +534,11 @@ func (g *Gen) genGrant() Op {
 }
 
 func (g *Gen) genSend() Op {
-	return Op{Kind: "SEND", From: g.user(), To: g.user(), Amount: bi(1 + g.r.Int63n(g.scale()))}
+	to := g.user()
+	if g.chance(0.08) {
+		to = -int64(1 + g.r.Intn(5)) // a module account: blocked recipient, the send must fail
+	}
+	return Op{Kind: "SEND", From: g.user(), To: to, Amount: bi(1 + g.r.Int63n(g.scale()))}
 }
 
 // ---- subaccount ops ---------------------------------------------------------------------------
